@@ -6,7 +6,7 @@ package accumulation
 // Program family: a callee `func callee() (*int, error)` with two return statements chosen from
 // {nil,nil | new(int),nil | nil,errA | new(int),errA} (the first behind an opaque flag, or behind the
 // callee's own `if e := other(); e != nil { return nil, e }`), optionally forwarded by `return callee()`,
-// and a caller in one of thirteen forms: proper `!= nil` check, proper `== nil` check, no check, blank error,
+// and a caller in one of sixteen forms: proper `!= nil` check, proper `== nil` check, no check, blank error,
 // check without return, error variable overwritten by an assignment or by the next call's `:=` before the
 // check, comparison with a sentinel instead of nil (three spellings), two checked calls.
 //
@@ -105,7 +105,7 @@ func Harness_P08() {
 	}
 
 	// the caller
-	form := ndChoice("caller_form", 13)
+	form := ndChoice("caller_form", 16)
 	proper := false
 	var panics bool
 	b.WriteString("func Entry() int {\n")
@@ -148,6 +148,15 @@ func Harness_P08() {
 		fl := ndBool("flag4")
 		b.WriteString("\tv, err := " + f + "()\n\tif err != nil && flag4 {\n\t\treturn 0\n\t}\n\treturn *v\n")
 		panics = ndAnd(ndNot(ndAnd(ndNot(res.enil), fl)), res.vnil)
+	case 13: // the check written as a tagless switch
+		b.WriteString("\tv, err := " + f + "()\n\tswitch {\n\tcase err != nil:\n\t\treturn 0\n\t}\n\treturn *v\n")
+		panics, proper = ndAnd(res.enil, res.vnil), true
+	case 14: // the check written as a tagged switch on the error
+		b.WriteString("\tv, err := " + f + "()\n\tswitch err {\n\tcase nil:\n\t\treturn *v\n\t}\n\treturn 0\n")
+		panics, proper = ndAnd(res.enil, res.vnil), true
+	case 15: // belt and braces: error check and value check
+		b.WriteString("\tv, err := " + f + "()\n\tif err == nil && v != nil {\n\t\treturn *v\n\t}\n\treturn 0\n")
+		panics, proper = false, true
 	default:
 		b.WriteString("\tv, err := " + f + "()\n\tw, err := callee2()\n\tif err != nil {\n\t\treturn 0\n\t}\n\treturn *v + *w\n")
 		panics = res.vnil
